@@ -7,7 +7,7 @@ package main
 // crypto/rand.Reader (the code reads 16 bytes per entry with ReadRand) and given to the model too.
 //
 // Property mode: (a) with coefficients drawn independently of the entries the batch result must
-// equal the conjunction of the individual Key.Verify results (key C02:batch-differs) — honest
+// equal the conjunction of the individual Key.Verify results (key C02:batchverify-differs) — honest
 // batches, individually invalid entries, and pairs/triples whose errors cancel under EQUAL
 // coefficients; (b) for every batch, also those crafted with knowledge of z ("zaware": Σ zᵢeᵢ = 0
 // with eᵢ ≠ 0 — not an attack, the exact algebra), the decision must be the one of the equation
@@ -296,7 +296,7 @@ func c02bExec(_ *State, line string) Result {
 		}
 	}
 	if !zaware && out != "panic" && (out == "ok") != conj {
-		res.PropKey, res.PropDesc = "C02:batch-differs", fmt.Sprintf("batch of %d signatures -> %s but conjunction of Key.Verify = %v (coefficients drawn independently of the entries)", nk, out, conj)
+		res.PropKey, res.PropDesc = "C02:batchverify-differs", fmt.Sprintf("batch of %d signatures -> %s but conjunction of Key.Verify = %v (coefficients drawn independently of the entries)", nk, out, conj)
 	}
 	if all && !nilEntry && !(t[0] == "bbatch" && nk == 1) {
 		// every entry decodable <=> the loop reaches the final equation
